@@ -74,6 +74,10 @@ type Exec struct {
 	errWhere  string
 	pools     map[*Object]Value
 	tainted   bool
+	task      int                       // 0 = main goroutine, k>0 = k-th spawned task of the current fork/join region
+	taskW     []map[jkey]bool           // per task: cells written (non-atomic)
+	taskR     []map[jkey]bool           // per task: cells read (non-atomic)
+	atomicOp  bool
 	errStack  []string
 	poolHook  func(x *Exec, p Pointer) (Value, bool)
 }
@@ -100,6 +104,9 @@ func (x *Exec) write(o *Object, i int, v Value) {
 		x.e.journal = append(x.e.journal, jent{o, i, o.rawGet(i)})
 	}
 	o.rawSet(i, v)
+	if x.task > 0 && !x.atomicOp && x.e.RaceCheck {
+		x.taskW[x.task-1][jkey{o, i}] = true
+	}
 }
 
 func (x *Exec) read(o *Object, i int) Value {
@@ -109,6 +116,9 @@ func (x *Exec) read(o *Object, i int) Value {
 	v := o.rawGet(i)
 	if v == nil {
 		v = x.e.zeroLeaf(o.Leaf[i%len(o.Leaf)])
+	}
+	if x.task > 0 && !x.atomicOp && x.e.RaceCheck {
+		x.taskR[x.task-1][jkey{o, i}] = true
 	}
 	return v
 }
@@ -1187,9 +1197,49 @@ func (x *Exec) mergeVal(c *smt.Term, a, b Value) (Value, bool) {
 
 
 func (x *Exec) runPendingGo() {
+	if !x.e.RaceCheck || x.task > 0 {
+		for len(x.pendingGo) > 0 {
+			g := x.pendingGo[0]
+			x.pendingGo = x.pendingGo[1:]
+			g()
+		}
+		return
+	}
+	// fork/join region: run the spawned tasks one after another (one admissible schedule) while
+	// recording each task's read and write footprints; the tasks are race free for EVERY schedule
+	// iff no cell written by one task is read or written by another (they synchronise only at the join).
+	x.taskW, x.taskR = nil, nil
+	n := 0
 	for len(x.pendingGo) > 0 {
 		g := x.pendingGo[0]
 		x.pendingGo = x.pendingGo[1:]
+		n++
+		x.taskW = append(x.taskW, map[jkey]bool{})
+		x.taskR = append(x.taskR, map[jkey]bool{})
+		x.task = n
 		g()
+		x.task = 0
 	}
+	x.res.RaceRegions++
+	for i := 0; i < n; i++ {
+		for j := 0; j < n; j++ {
+			if i == j {
+				continue
+			}
+			for k := range x.taskW[i] {
+				if x.taskW[j][k] && i < j || x.taskR[j][k] {
+					x.res.Obligations++
+					_, m := x.check(x.e.C.True(), true)
+					what := "read"
+					if x.taskW[j][k] {
+						what = "written"
+					}
+					x.violation("race", fmt.Sprintf("data race: cell %s[%d] is written by goroutine %d and %s by goroutine %d of the same fork/join region", k.o.Name, k.i, i+1, what, j+1), m)
+					return
+				}
+			}
+		}
+	}
+	x.res.Obligations++
+	x.res.Discharged++
 }
